@@ -157,9 +157,12 @@ def lark_item(it):
     if k == "plus":
         return "(" + lark_item(it["a"]) + ")+"
     if k == "rep":
+        # a repeated rule reference is written bare (`a{2,4}`): the element is then the rule's own node, shared by every
+        # repetition of it in the grammar
+        inner = lark_item(it["a"]) if it["a"]["k"] == "ref" else "(" + lark_item(it["a"]) + ")"
         if it["n"] < 0:
-            return "(" + lark_item(it["a"]) + "){%d,}" % it["m"]
-        return "(" + lark_item(it["a"]) + "){%d,%d}" % (it["m"], it["n"])
+            return inner + "{%d,}" % it["m"]
+        return inner + "{%d,%d}" % (it["m"], it["n"])
     if k == "group":
         return "(" + " | ".join(" ".join(lark_item(x) for x in alt) for alt in it["alts"]) + ")"
     raise ValueError(k)
@@ -212,7 +215,24 @@ def ref(n):
 
 
 # hand-written grammars of the fragment
+def _rep(a, m, n):
+    return {"k": "rep", "a": a, "m": m, "n": n}
+
+
 HAND = [
+    # two repetitions over ONE element in one grammar (the builder memoises at-most / exact / at-least parts per element)
+    ("rep_shared1", {"start": "start", "rules": [
+        {"lhs": "start", "alts": [[_rep(ref("a"), 0, 2), lit("x"), _rep(ref("a"), 2, 2)]]},
+        {"lhs": "a", "alts": [[lit("a")]]}]}),
+    ("rep_shared2", {"start": "start", "rules": [
+        {"lhs": "start", "alts": [[_rep(ref("a"), 2, 4), lit("x"), _rep(ref("a"), 2, 4)]]},
+        {"lhs": "a", "alts": [[lit("a")], [lit("b")]]}]}),
+    ("rep_shared3", {"start": "start", "rules": [
+        {"lhs": "start", "alts": [[_rep(ref("a"), 3, 3), lit("x"), _rep(ref("a"), 0, 3), lit("y"), _rep(ref("a"), 1, -1)]]},
+        {"lhs": "a", "alts": [[lit("a")]]}]}),
+    ("rep_shared4", {"start": "start", "rules": [
+        {"lhs": "start", "alts": [[_rep(ref("a"), 0, 5), lit("x"), _rep(ref("a"), 5, 5)], [lit("y"), _rep(ref("a"), 5, 9)]]},
+        {"lhs": "a", "alts": [[lit("a")]]}]}),
     ("arith", {"start": "start", "rules": [
         {"lhs": "start", "alts": [[ref("expr")]]},
         {"lhs": "expr", "alts": [[ref("term")], [ref("expr"), lit("+"), ref("term")], [ref("expr"), lit("-"), ref("term")]]},
